@@ -1,6 +1,7 @@
 """C17 t-digest: thin structural clauses (weight accounting, extremes, guards); see rules/tdigest_rules.py."""
 import tdigest_rules as T
 import generic_lints
+import hazard_lints
 import triggers
 import predicates
 import dead_reads
@@ -13,6 +14,7 @@ def run(facts, tier):
         ("emptiness predicate support", lambda fa: predicates.obligations(fa, ['tdigest']), 2, "is_empty consults centroids and buffer"),
         ("reader dead-reads", lambda fa: [o for o in dead_reads.obligations(fa) if "tdigest" in o["key"]], 10, "every field the t-digest readers take from the image reaches the restored sketch on every accepting path"),
         ("tautologies", lambda fa: generic_lints.tautologies(fa, ('tdigest/',)), 2, "no comparison / assignment / min-max with two identical operands"),
+        ("hazards", lambda fa: hazard_lints.hazards(fa, ('tdigest/',)), 2, "no 64-bit value silently narrowed at a call of a library function, no numeric_limits<floating>::min() as a lowest value, no random engine constructed inside a loop, no read of a moved-from parameter, no unguarded unsigned `x - c` loop bound (reviewed instances in spec/hazards.json)"),
         ("duplicate operands", lambda fa: generic_lints.duplicate_conjuncts(fa, ('tdigest/',)), 2, "no logical chain tests the same operand twice"),
         ("structural triggers", lambda fa: triggers.obligations(fa, ['tdigest']), 2, "the comparisons that decide when to compress / grow / downsample keep their reviewed boundary (operator and constants)"),
     ):
